@@ -1,6 +1,7 @@
 (* C28 -- the connection classes as configurations of the model, built from the GENERATED
    refresh table (coq/gen/C28_Refresh.v).  Definitions only. *)
 From Coq Require Import List ZArith Bool.
+Import ListNotations.
 Require Import V.C28.Model V.gen.C28_Refresh.
 Open Scope Z_scope.
 
@@ -12,6 +13,31 @@ Definition conn_cfg (tls valet : bool) (T : Z) : cfg :=
      refreshable := true;
      checks_cutoff := if valet then Valet_checks_cutoff else Porter_checks_cutoff;
      timeout0 := T |}.
+
+(* the configuration path of each front end x scheme, from the GENERATED table *)
+Definition path_of (tls valet : bool) : path :=
+  {| front_default := if valet then Valet_default_x8 else Porter_default_x8;
+     front_forwards := match valet, tls with
+                       | true, true => Valet_https_forwards_timeout
+                       | true, false => Valet_http_forwards_timeout
+                       | false, true => Porter_https_forwards_timeout
+                       | false, false => Porter_http_forwards_timeout end;
+     server_default := if tls then ServerTls_default_x8 else Server_default_x8;
+     server_forwards := if tls then ServerTls_forwards_timeout else Server_forwards_timeout;
+     incomer_default := if tls then IncomerTls_default_x8 else Incomer_default_x8 |}.
+
+(* the value the user configured: Valet(timeout=T) / Porter(timeout=T), None = class default *)
+Definition configured_timeout (valet : bool) (configured : option Z) : Z :=
+  resolve configured (if valet then Valet_default_x8 else Porter_default_x8).
+
+(* a connection accepted by the Server(Tls) that a Valet / Porter built for itself (1 tick = 1/8 s) *)
+Definition served_cfg (tls valet : bool) (configured : option Z) : cfg :=
+  conn_cfg tls valet (conn_timeout (path_of tls valet) configured).
+
+(* the same Store (clock) is handed down at every level *)
+Definition clock_forwarded : list bool :=
+  [Valet_http_forwards_store; Valet_https_forwards_store; Porter_http_forwards_store;
+   Porter_https_forwards_store; Server_forwards_store; ServerTls_forwards_store].
 
 Definition refreshing (c : cfg) : bool := rx_ref c && tx_ref c && refreshable c.
 
